@@ -376,7 +376,7 @@ def _worker(args):
 
 
 def save_replay(pid, viol):
-    d = os.path.join(ROOT, "replay", pid)
+    d = os.path.join(os.environ.get("VERIF_REPLAY_DIR") or os.path.join(ROOT, "replay"), pid)
     os.makedirs(d, exist_ok=True)
     rec = {
         "property": pid,
@@ -564,8 +564,9 @@ def main(check_module, argv=None):
                 "wall_s": wall,
                 "violations": len(violations),
             }
-            os.makedirs(os.path.join(ROOT, "evidence"), exist_ok=True)
-            with open(os.path.join(ROOT, "evidence", f"{pid}.json"), "w") as f:
+            evdir = os.environ.get("VERIF_EVIDENCE_DIR") or os.path.join(ROOT, "evidence")
+            os.makedirs(evdir, exist_ok=True)
+            with open(os.path.join(evdir, f"{pid}.json"), "w") as f:
                 json.dump(ev, f, indent=1, sort_keys=True, default=str)
 
         for sig, ent in (tot["known_seen"].items() if tot else []):
